@@ -492,6 +492,16 @@ def render_fn(fs, out, unit, log):
             new = f"assert!({parts[0].strip()})"
             ins(st, new, {"type": "src", "file": relfile, "fn": flabel, "unit": unit, "rule": "R7"}, dl=pe - st)
             log["rewrites"].append({"rule": "R7", "fn": flabel, "from": text[st:pe], "to": new})
+    # R9: `x |= <bool expr>;` / `x &= <bool expr>;` (non-short-circuit bool ops are rejected by Verus) ->
+    #     `{ let __r9 = <expr>; x = x || __r9; }` (same evaluation order and value).  Applied only when the right-hand side
+    #     contains a comparison (== != < >) at top level, i.e. is syntactically boolean.
+    for m in re.finditer(r"(?m)^([ \t]*)([A-Za-z_][\w\.]*) (\||&)= ([^;\n]*?(?:==|!=|<=|>=|[^-<>=]<[^<=]|[^->=]>[^>=])[^;\n]*);", text[body_s:body_e]):
+        st = body_s + m.start()
+        en = body_s + m.end()
+        op = "||" if m.group(3) == "|" else "&&"
+        new = f"{m.group(1)}{{ let __r9: bool = {m.group(4)}; {m.group(2)} = {m.group(2)} {op} __r9; }}"
+        ins(st, new, {"type": "src", "file": relfile, "fn": flabel, "unit": unit, "rule": "R9"}, dl=en - st)
+        log["rewrites"].append({"rule": "R9", "fn": flabel, "from": text[st:en].strip(), "to": new.strip()})
     if fs.opts.get("r4"):
         for m in re.finditer(r"(?<![\w:!])format!\s*\(", text[body_s:body_e]):
             st = body_s + m.start()
